@@ -453,11 +453,25 @@ func (p *notifier) notifyNow(event Event) error {
 	now := timeFunc()
 	dbEvent.Latest = &now
 	if p.isPersistent() {
+		finishedMeanwhile := false
 		if err := p.db.WriteShelf(p.ctx, p.shelfName(), func(writer stoabs.Writer) error {
+			// The job may have been marked as finished (by a concurrent delivery or a call to Finished) while the receiver was busy.
+			// Writing the event then would bring the finished job back, so check (in the same DB transaction) that it still exists.
+			if _, err := writer.Get(stoabs.BytesKey(dbEvent.Hash.Slice())); err != nil {
+				if errors.Is(err, stoabs.ErrKeyNotFound) {
+					finishedMeanwhile = true
+					return nil
+				}
+				return err
+			}
 			return p.writeEvent(writer, *dbEvent)
 		}); err != nil {
 			// the outcome could not be recorded (the store may just be busy), so keep retrying
 			return err
+		}
+		if finishedMeanwhile {
+			// no longer exists so done, this stops any go routine
+			return nil
 		}
 	}
 
